@@ -6,6 +6,26 @@ import os
 VERIF = os.path.dirname(os.path.dirname(os.path.abspath(__file__)))
 
 CLAIMED = {
+    "C01": dict(
+        engine="txn", category="model_checking", design_ref="DESIGN.md §7 C01",
+        technique="TLA+ spec Mvcc.tla (as-is MVCC mechanism + ideal snapshot views) explored by TLC; TLC-generated behaviours replayed through real sessions; recorded histories validated by TLC with every read kind of every session after every step",
+        text="Every observation (label scan, unlabelled scan with projection, point lookup of every id, 1-hop expand, neighbour listings, counts) of every session after every action of thousands of generated and random multi-session histories must equal the as-is mechanism model or the ideal snapshot view; any third behaviour is a violation. Observations that equal the mechanism but not the ideal are the listed known findings (dirty reads etc.), whose witnesses are re-executed on every run.",
+        note="Sessions are driven from one thread; one property key, two labels, one edge type. The tree violates C01 in the listed ways (known_findings.json); a different deviation is reported."),
+    "C02": dict(
+        engine="txn", category="model_checking", design_ref="DESIGN.md §7 C02",
+        technique="same Mvcc.tla machinery as C01 with rollback / drop / refused-commit heavy histories; full dump through all access paths compared after every step",
+        text="After every rollback, session drop, commit and refused commit the full projection through all access paths, for a fresh view and every open session, is validated by TLC against Mvcc.tla (mechanism or ideal); rollback residue that is not one of the listed known findings is a violation.",
+        note="As C01."),
+    "C05": dict(
+        engine="wal", category="model_checking", design_ref="DESIGN.md §7 C05",
+        technique="TLA+ spec Wal.tla model-checked by TLC (3 durability modes, rotation, checkpoints, crashes, bit flips); traces of a real persistent GrafeoDB with WAL hook events validated against it",
+        text="TLC proves Consistent/RecoveryOk for the repaired WAL design on the bounded model and shows each deviation switch breaks it; close/reopen cycles with checkpoints anywhere under Sync/Batch/NoSync/Adaptive on the real database are validated event by event (per-file appended/flushed/fsynced record counts from the hook, recovered full dump = the dump of the required history position, fresh identifiers).",
+        note="Prefix states are the live database's own dumps. Rotation is model-only (64 MB in the engine). Never-logged mutations are known findings with witnesses."),
+    "C06": dict(
+        engine="wal", category="model_checking", design_ref="DESIGN.md §7 C06",
+        technique="Wal.tla crash/bit-flip actions model-checked by TLC; real crash images (every record boundary, torn records, every byte in thorough) and single-bit flips opened on copies, results validated by TLC",
+        text="For every explored history and crash point the harness builds crash images between the last fsync (hook) and the on-disk length of every log file, plus single-bit corruptions, opens each, and TLC checks: open succeeds, recovered dump is the dump of a prefix, no shorter than the durable prefix, and continuation crash->open->writes->close->open stays consistent.",
+        note="fsync points come from the hook; the OS is assumed to keep fsynced bytes and to lose any suffix of un-fsynced bytes."),
     "C03": dict(
         engine="txn", category="model_checking", design_ref="DESIGN.md §7 C03",
         technique="TLA+ spec TxManager.tla model-checked by TLC; TLC-generated behaviours replayed on the real TransactionManager and recorded traces validated against the spec by TLC",
@@ -21,8 +41,10 @@ CLAIMED = {
 REASON_PENDING = "not claimed yet in this round: specification and conformance binding for this property are designed (DESIGN.md §7) but not built; no check is registered rather than an unsound one"
 
 ENGINES = [
-    dict(name="txn", path="spec/txn", serves_properties=["C03", "C04"],
-         kind_free_text="TLA+ TxManager.tla (+MC_/Gen_/Trace_ modules) checked by TLC; Rust harness `gv txm` records traces / replays TLC behaviours"),
+    dict(name="wal", path="spec/wal", serves_properties=["C05", "C06"],
+         kind_free_text="TLA+ Wal.tla (+Trace_Wal) checked by TLC; Rust harness `gv wal` drives a persistent GrafeoDB, reads the cfg(grafeo_verif) WAL hook, builds crash images"),
+    dict(name="txn", path="spec/txn", serves_properties=["C01", "C02", "C03", "C04"],
+         kind_free_text="TLA+ TxManager.tla and Mvcc.tla (+MC_/Gen_/Trace_ modules) checked by TLC; Rust harness `gv txm` records traces / replays TLC behaviours"),
 ]
 
 
